@@ -623,6 +623,112 @@ def priority_cases(rng, n):
     return cases
 
 
+# -- lambdas with every parameter kind, CALLED (positional, keyword, star arguments): which parameter receives which
+#    argument / default is decided by the regenerated `arguments` node (seeded change C03-4, missed before: the
+#    generators never called a lambda that has more than one keyword-only parameter)
+
+def lambda_call_cases(rng, n):
+    """`(lambda p, q=D, /, r=D, *rest, lo=D, hi, **kw: BODY)(ARGS)`: positional-only, ordinary, keyword-only parameters
+    with defaults in every admissible pattern (kw_defaults with holes: a keyword-only parameter WITH a default before one
+    WITHOUT), *args / **kw, called with positional, keyword, * and ** arguments (mostly admissible; some calls are
+    wrong on purpose: the TypeError must be the same); the body shows which parameter got which value"""
+    cases = []
+    for _ in range(n):
+        pool = ['p', 'q', 'r', 'u', 'v', 'w', 'lo', 'hi', 'sep']
+        rng.shuffle(pool)
+        npo, nar, nko = rng.choice([0, 0, 1, 2]), rng.choice([0, 1, 1, 2]), rng.choice([0, 1, 2, 2, 3, 3])
+        po = [pool.pop() for _ in range(npo)]
+        ar = [pool.pop() for _ in range(nar)]
+        ko = [pool.pop() for _ in range(nko)]
+        va = 'rest' if rng.random() < 0.3 else None
+        ka = 'kw' if rng.random() < 0.3 else None
+        dexpr = lambda: rng.choice(['a', 'b', 'x', '10', '20', 'n + 1', 'y * 2', "'d'", 'a + b', 'None', '-1', 'nope', 'items'])
+        ndef = rng.randrange(0, npo + nar + 1) if rng.random() < 0.7 else 0
+        pdef = dict((nm, dexpr()) for nm in (po + ar)[npo + nar - ndef:])
+        kdef = dict((nm, dexpr()) for nm in ko if rng.random() < 0.5)
+        ps = []
+        for i, nm in enumerate(po):
+            ps.append(nm + ('=' + pdef[nm] if nm in pdef else ''))
+        if po:
+            ps.append('/')
+        for nm in ar:
+            ps.append(nm + ('=' + pdef[nm] if nm in pdef else ''))
+        if va:
+            ps.append('*' + va)
+        elif ko:
+            ps.append('*')
+        for nm in ko:
+            ps.append(nm + ('=' + kdef[nm] if nm in kdef else ''))
+        if ka:
+            ps.append('**' + ka)
+        names = po + ar + ko
+        r = rng.random()
+        if r < 0.6 or not names:
+            body = '(' + ''.join(nm + ', ' for nm in names) + (va + ', ' if va else '') + ('sorted(%s.items()), ' % ka if ka else '') + ')'
+        elif r < 0.8:
+            body = ' + '.join('%s * %d' % (nm, 10 ** i) for i, nm in enumerate(names))
+        else:
+            body = '[%s for i in range(2)]' % rng.choice(names)
+        aexpr = lambda: rng.choice(['1', '2', '3', 'a', 'b', 'c', 'x', 'a + 1', 'n', "'s'", 'items', 'None', 'zz'])
+        # an admissible call
+        pos_params = po + ar
+        need = npo + nar - ndef
+        npos_given = rng.randrange(min(need, len(pos_params)), len(pos_params) + 1) if rng.random() < 0.7 else max(npo, min(need, len(pos_params)))
+        npos_given = max(npos_given, min(npo - sum(1 for nm in po if nm in pdef), npo))
+        args = [aexpr() for _ in range(npos_given)]
+        if va and rng.random() < 0.6:
+            args += [aexpr() for _ in range(rng.randrange(1, 3))] if npos_given == len(pos_params) else []
+        kws = []
+        for nm in pos_params[npos_given:]:
+            if nm in ar and (nm not in pdef or rng.random() < 0.5):
+                kws.append('%s=%s' % (nm, aexpr()))
+        for nm in ko:
+            if nm not in kdef or rng.random() < 0.5:
+                kws.append('%s=%s' % (nm, aexpr()))
+        rng.shuffle(kws)
+        if ka and rng.random() < 0.6:
+            kws.append('%s=%s' % (rng.choice(['z1', 'z2', 'extra']), aexpr()))
+        star = False
+        if args and rng.random() < 0.15:
+            k = rng.randrange(0, len(args))
+            args = args[:k] + ['*[%s]' % ', '.join(args[k:])]
+            star = True
+        if kws and rng.random() < 0.12:
+            kws = ['**{%s}' % ', '.join('%r: %s' % tuple(kw.split('=', 1)) for kw in kws)]
+            star = True
+        wrong = None
+        if rng.random() < 0.12:
+            wrong = rng.choice(['drop', 'unknown', 'extra-pos', 'dup'])
+            if wrong == 'drop' and (args or kws):
+                (args if args and (not kws or rng.random() < 0.5) else kws).pop()
+            elif wrong == 'unknown':
+                kws.append('nokw=1')
+            elif wrong == 'extra-pos':
+                args = args + ['7'] * 3
+            elif wrong == 'dup' and ar and npos_given >= len(pos_params) and not star:
+                kws.append('%s=0' % ar[-1])
+        lam = '(lambda %s: %s)' % (', '.join(ps), body)
+        call = '%s(%s)' % (lam, ', '.join(args + kws))
+        w = rng.choice(['%s', '%s', '%s', '[%s for j in items]', '(lambda g: %s)(1)', '(%s, a)', 'len([%s])', '%s if a else 0',
+                        '(lambda fn: fn)(%s)'])
+        if w == '(lambda fn: fn)(%s)':
+            # the function passed around first, called afterwards
+            src = '(lambda fn: fn(%s))(%s)' % (', '.join(args + kws), lam)
+        else:
+            src = w % call
+        data = rand_data(rng)
+        for nm in ['a', 'b', 'c', 'x', 'y', 'n']:
+            if rng.random() < 0.9 and (not isinstance(data.get(nm), int) or isinstance(data.get(nm), bool)):
+                data[nm] = rng.choice([0, 1, 2, 3, 5, -2])
+        data.setdefault('items', [1, 2])
+        holes = [nm in kdef for nm in ko]
+        shape = 'lamcall:' + ('kwhole' if any(holes[i] and not all(holes[i:]) for i in range(len(holes))) else
+                              'kwonly' if ko else 'plain') + ('+po' if po else '') + ('+va' if va else '') + ('+ka' if ka else '') + \
+                ('+star' if star else '') + ('+wrong' if wrong else '')
+        cases.append({'kind': 'eval', 'src': src, 'lookup': rng.choice(['strict', 'lenient']), 'data': data, 'shape': shape})
+    return cases
+
+
 LOOKUP_POOL = ['x', 'k', 'a', 'keys', 'items', 'get', 'values', 'p', 'missing']
 
 
@@ -778,6 +884,10 @@ def gen_lex(rng, n):
 
 
 HAND = [
+    ('(lambda *, lo=0, hi=10, x: (lo, hi, x))(lo=1, x=5)', {}), ('(lambda *, lo=a, hi=b, x: (lo, hi, x))(x=5)', {'a': 0, 'b': 10}),
+    ('(lambda first, *rest, pad="-", width: (first, rest, pad, width))(1, 2, width=n)', {'n': 7}),
+    ('(lambda p, q=1, /, r=2, *rest, lo=3, hi, **kw: (p, q, r, rest, lo, hi, sorted(kw.items())))(0, hi=a, z=1)', {'a': 4}),
+    ('(lambda a, b=2, *, c=3: (a, b, c))(1)', {}), ('(lambda *, x, lo=0: (lo, x))(x=5)', {}),
     ('(-2) ** 2', {}), ('(-a) ** 2', {'a': 3}), ('(not a) == b', {'a': 0, 'b': 1}), ('(not a) + 1', {'a': 0}),
     ('(-items)[0]', {'items': [1]}), ('x >= (not y)', {'x': 1, 'y': 0}), ('1e999', {}), ('(lambda a=a: a)()', {'a': 5}),
     ('(lambda a, /: a)(1)', {}), ('(lambda *, k=a: k)()', {'a': 2}), ('[x for x in x]', {'x': [1, 2]}),
@@ -916,6 +1026,7 @@ def shard(arg):
     if idx == 0:
         cases = [{'kind': 'eval', 'src': s, 'lookup': lk, 'data': d} for s, d in HAND for lk in ('strict', 'lenient')] + cases
     cases += priority_cases(rng, max(20, n // 8))
+    cases += lambda_call_cases(rng, max(30, n // 6))
     cases += gen_lex(rng, nlex)
     cases += gen_lex_raw(rng, nlex * 4)
     for c in cases:
